@@ -26,6 +26,12 @@ impl<'a> fmt::Display for Disp<'a> {
         f.write_str(self.0)
     }
 }
+struct DispOwned(String);
+impl fmt::Display for DispOwned {
+    fn fmt(&self, f: &mut fmt::Formatter<'_>) -> fmt::Result {
+        f.write_str(&self.0)
+    }
+}
 /// Display that writes the text one character at a time (several write_str calls)
 struct DispChars<'a>(&'a str);
 impl<'a> fmt::Display for DispChars<'a> {
@@ -70,17 +76,168 @@ fn tp_val(t: Traceparent) -> Value {
     })
 }
 
+/// The forms a text arrives in as a property value (spec/Text.tla CastForms).
+const CAST_FORMS: [&str; 13] = [
+    "str", "string", "from_any-string", "cow", "option", "display", "display-chars", "dyn-display", "serde", "sval", "owned",
+    "shared", "props-pull",
+];
+/// The channels the text of a typed value gets out through (spec/Text.tla ValueChannels).
+const VALUE_CHANNELS: [&str; 10] =
+    ["display", "to_value", "to_value-serde", "to_value-sval", "to_value-owned", "serde-json", "serde-collect", "sval", "sval-json", "sval-ref"];
+const TYPED_CAST_FORMS: [&str; 5] = ["from_any", "serde", "sval", "owned", "display"];
+
+fn cast_via<T: for<'a> emit::value::FromValue<'a>>(form: &str, s: &str) -> Option<T> {
+    let owned = s.to_string();
+    match form {
+        "str" => emit::Value::from(s).cast::<T>(),
+        "string" => emit::Value::from(&owned).cast::<T>(),
+        "from_any-string" => emit::Value::from_any(&owned).cast::<T>(),
+        "cow" => emit::Value::from(&std::borrow::Cow::Borrowed(s)).cast::<T>(),
+        "option" => emit::Value::from(Some(s)).cast::<T>(),
+        "display" => emit::Value::from_display(&Disp(s)).cast::<T>(),
+        "display-chars" => emit::Value::from_display(&DispChars(s)).cast::<T>(),
+        "dyn-display" => {
+            let d = DispOwned(owned.clone());
+            let dd: &dyn fmt::Display = &d;
+            emit::value::ToValue::to_value(dd).cast::<T>()
+        }
+        "serde" => emit::Value::from_serde(&owned).cast::<T>(),
+        "sval" => emit::Value::from_sval(&owned).cast::<T>(),
+        "owned" => emit::Value::from(s).to_owned().by_ref().cast::<T>(),
+        "shared" => emit::Value::from(s).to_shared().by_ref().cast::<T>(),
+        "props-pull" => ("k", s).pull::<T, _>("k"),
+        _ => tool_error("unknown cast form"),
+    }
+}
+
 /// every way a text can reach `T`'s parser through a property value
 fn casts<T: for<'a> emit::value::FromValue<'a>>(s: &str, conv: impl Fn(T) -> Value + Copy) -> Vec<(&'static str, Outcome)> {
-    let mut v: Vec<(&'static str, Outcome)> = Vec::new();
-    v.push(("cast(&str)", catch(|| emit::Value::from(s).cast::<T>().map(conv))));
-    let owned = s.to_string();
-    v.push(("cast(&String)", catch(|| emit::Value::from(&owned).cast::<T>().map(conv))));
-    v.push(("cast(from_any String)", catch(|| emit::Value::from_any(&owned).cast::<T>().map(conv))));
-    v.push(("cast(from_display)", catch(|| emit::Value::from_display(&Disp(s)).cast::<T>().map(conv))));
-    v.push(("cast(from_display chars)", catch(|| emit::Value::from_display(&DispChars(s)).cast::<T>().map(conv))));
-    v.push(("props.pull", catch(|| ("k", s).pull::<T, _>("k").map(conv))));
-    v
+    CAST_FORMS.iter().map(|form| (*form, catch(|| cast_via::<T>(form, s).map(conv)))).collect()
+}
+
+/// A collecting sval stream: accepts exactly one text value, concatenating its fragments.
+#[derive(Default)]
+struct Collect {
+    text: String,
+    begun: u32,
+    ended: u32,
+}
+impl<'sval> sval::Stream<'sval> for Collect {
+    fn null(&mut self) -> sval::Result {
+        sval::error()
+    }
+    fn bool(&mut self, _: bool) -> sval::Result {
+        sval::error()
+    }
+    fn text_begin(&mut self, _: Option<usize>) -> sval::Result {
+        self.begun += 1;
+        Ok(())
+    }
+    fn text_fragment_computed(&mut self, fragment: &str) -> sval::Result {
+        self.text.push_str(fragment);
+        Ok(())
+    }
+    fn text_end(&mut self) -> sval::Result {
+        self.ended += 1;
+        Ok(())
+    }
+    fn i64(&mut self, _: i64) -> sval::Result {
+        sval::error()
+    }
+    fn f64(&mut self, _: f64) -> sval::Result {
+        sval::error()
+    }
+    fn seq_begin(&mut self, _: Option<usize>) -> sval::Result {
+        sval::error()
+    }
+    fn seq_value_begin(&mut self) -> sval::Result {
+        sval::error()
+    }
+    fn seq_value_end(&mut self) -> sval::Result {
+        sval::error()
+    }
+    fn seq_end(&mut self) -> sval::Result {
+        sval::error()
+    }
+}
+fn sval_text(v: &impl sval::Value) -> String {
+    let mut c = Collect::default();
+    let r = v.stream(&mut c);
+    if r.is_err() || c.begun != 1 || c.ended != 1 {
+        format!("<sval: not one text value: err={} begun={} ended={} text={:?}>", r.is_err(), c.begun, c.ended, c.text)
+    } else {
+        c.text
+    }
+}
+fn sval_ref_text<'a>(v: &impl sval_ref::ValueRef<'a>) -> String {
+    let mut c = Collect::default();
+    let r = v.stream_ref(&mut c);
+    if r.is_err() || c.begun != 1 || c.ended != 1 {
+        format!("<sval_ref: not one text value: err={} begun={} ended={} text={:?}>", r.is_err(), c.begun, c.ended, c.text)
+    } else {
+        c.text
+    }
+}
+fn json_text(r: Result<String, String>) -> String {
+    match r {
+        Ok(j) => serde_json::from_str::<String>(&j).unwrap_or_else(|_| format!("<not a JSON string: {j}>")),
+        Err(e) => format!("<error: {e}>"),
+    }
+}
+fn json_value_text(r: Result<Value, serde_json::Error>) -> String {
+    match r {
+        Ok(Value::String(s)) => s,
+        Ok(v) => format!("<not a string: {v}>"),
+        Err(e) => format!("<error: {e}>"),
+    }
+}
+
+/// the channels every typed value has (through ToValue)
+fn value_channel<T: fmt::Display + emit::value::ToValue>(ch: &str, v: &T) -> Option<String> {
+    Some(match ch {
+        "display" => v.to_string(),
+        "to_value" => v.to_value().to_string(),
+        "to_value-serde" => json_value_text(serde_json::to_value(&v.to_value())),
+        "to_value-sval" => sval_text(&v.to_value()),
+        "to_value-owned" => v.to_value().to_owned().to_string(),
+        _ => return None,
+    })
+}
+/// the channels of the typed values that implement serde / sval themselves
+fn typed_channel<T: serde::Serialize + sval::Value>(ch: &str, v: &T) -> String {
+    match ch {
+        "serde-json" => json_text(serde_json::to_string(v).map_err(|e| e.to_string())),
+        "serde-collect" => json_value_text(serde_json::to_value(v)),
+        "sval" => sval_text(v),
+        "sval-json" => json_text(sval_json::stream_to_string(v).map_err(|e| e.to_string())),
+        _ => tool_error("unknown value channel"),
+    }
+}
+fn channels_plain<T: fmt::Display + emit::value::ToValue>(v: &T) -> Vec<(&'static str, String)> {
+    VALUE_CHANNELS.iter().filter_map(|ch| value_channel(ch, v).map(|t| (*ch, t))).collect()
+}
+fn channels_full<T: fmt::Display + emit::value::ToValue + serde::Serialize + sval::Value>(v: &T) -> Vec<(&'static str, String)> {
+    VALUE_CHANNELS.iter().filter(|ch| **ch != "sval-ref").map(|ch| (*ch, value_channel(ch, v).unwrap_or_else(|| typed_channel(ch, v)))).collect()
+}
+/// a typed value captured in a property value casts back to itself
+fn typed_casts_plain<T>(v: &T) -> Vec<(&'static str, bool)>
+where
+    T: fmt::Display + emit::value::ToValue + PartialEq + for<'a> emit::value::FromValue<'a>,
+{
+    vec![
+        ("from_any", emit::Value::from_any(v).cast::<T>().as_ref() == Some(v)),
+        ("owned", emit::Value::from_any(v).to_owned().by_ref().cast::<T>().as_ref() == Some(v)),
+        ("display", emit::Value::from_display(v).cast::<T>().as_ref() == Some(v)),
+    ]
+}
+fn typed_casts_full<T>(v: &T) -> Vec<(&'static str, bool)>
+where
+    T: fmt::Display + emit::value::ToValue + PartialEq + for<'a> emit::value::FromValue<'a> + serde::Serialize + sval::Value,
+{
+    let mut r = typed_casts_plain(v);
+    r.push(("serde", emit::Value::from_serde(v).cast::<T>().as_ref() == Some(v)));
+    r.push(("sval", emit::Value::from_sval(v).cast::<T>().as_ref() == Some(v)));
+    r
 }
 
 fn entry_points(parser: &str, s: &str) -> Vec<(&'static str, Outcome)> {
@@ -143,6 +300,10 @@ fn entry_points(parser: &str, s: &str) -> Vec<(&'static str, Outcome)> {
 const PARSERS: [&str; 8] = ["ts", "tid", "sid", "fl", "tp", "lvl", "kind", "path"];
 
 struct St {
+    /// (parser, form) pairs the specification declares don't-care (reported as a finding)
+    dontcare: Vec<(String, String)>,
+    finding_obs: std::collections::BTreeMap<String, u64>,
+    finding_examples: Vec<Value>,
     rep: Report,
     per_kind: std::collections::BTreeMap<String, u64>,
     decided: std::collections::BTreeMap<String, u64>,
@@ -160,10 +321,46 @@ impl St {
         }
     }
 
+    /// every channel gives the text `want`; every typed capture casts back
+    fn check_channels(&mut self, ty: &str, want: &str, got: Result<(Vec<(&'static str, String)>, Vec<(&'static str, bool)>), String>, case: &Value) {
+        match got {
+            Err(p) => self.mm(format!("{ty}-channel-panic"), case, json!({"panic": p})),
+            Ok((chans, backs)) => {
+                for (ch, g) in chans {
+                    self.rep.checks += 1;
+                    if g != want {
+                        self.mm(format!("{ty}-channel-differs"), case, json!({"channel": ch, "want": want, "got": g}));
+                    }
+                }
+                for (form, ok) in backs {
+                    self.rep.checks += 1;
+                    if self.dontcare.iter().any(|(p, f)| p == ty && f == form) {
+                        *self.finding_obs.entry(format!("{ty}:typed-{form}:{}", if ok { "as-specified" } else { "differs" })).or_insert(0) += 1;
+                        continue;
+                    }
+                    if !ok {
+                        self.mm(format!("{ty}-typed-cast-differs"), case, json!({"form": form, "text": want}));
+                    }
+                }
+            }
+        }
+    }
+
     fn check_text(&mut self, parser: &str, s: &str, verdict: &str, val: &Value, case: &Value) {
         for (how, out) in entry_points(parser, s) {
             self.rep.checks += 1;
             *self.decided.entry(format!("{parser}:{verdict}")).or_insert(0) += 1;
+            let dc = self.dontcare.iter().any(|(p, f)| p == parser && f == how);
+            if dc {
+                if let (Ok(o), true) = (&out, verdict != "d") {
+                    let agrees = (verdict == "a" && o.as_ref() == Some(val)) || (verdict == "r" && o.is_none());
+                    *self.finding_obs.entry(format!("{parser}:{how}:{}", if agrees { "as-specified" } else { "differs" })).or_insert(0) += 1;
+                    if !agrees && self.finding_examples.len() < 6 {
+                        self.finding_examples.push(json!({"parser": parser, "form": how, "text": s, "statement": verdict, "got": o}));
+                    }
+                }
+            }
+            let verdict = if dc { "d" } else { verdict };
             match (verdict, out) {
                 (_, Err(p)) => self.mm(format!("{parser}-panic"), case, json!({"text": s, "entry": how, "expected": verdict, "panic": p})),
                 ("d", _) => {}
@@ -191,7 +388,7 @@ fn main() {
     let args: Vec<String> = std::env::args().collect();
     let (cases, out, sweep) = (&args[1], &args[2], args.get(3).map(|s| s.as_str()).unwrap_or("quick"));
     quiet_panics();
-    let mut st = St { rep: Report::new(), per_kind: Default::default(), decided: Default::default() };
+    let mut st = St { dontcare: Vec::new(), finding_obs: Default::default(), finding_examples: Vec::new(), rep: Report::new(), per_kind: Default::default(), decided: Default::default() };
     let mut distinct_accept = std::collections::BTreeSet::new();
     for_each_case(cases, |_, line| {
         let c = &line["c"];
@@ -205,7 +402,45 @@ fn main() {
                         distinct_accept.insert(format!("{p}:{}", c[p]["val"]));
                     }
                     st.check_text(p, &s, v, &c[p]["val"], line);
+                    // the typed value, out through every channel and back
+                    if v == "a" && (p == "tid" || p == "sid" || p == "path") {
+                        let want = if p == "path" { s.clone() } else { text_of(&c[p]["val"]) };
+                        let got = catch(|| match p {
+                            "tid" => s.parse::<TraceId>().ok().map(|t| (channels_full(&t), typed_casts_full(&t))),
+                            "sid" => s.parse::<SpanId>().ok().map(|t| (channels_full(&t), typed_casts_full(&t))),
+                            _ => Path::new_ref(&s).ok().map(|t| {
+                                let mut ch = channels_full(&t);
+                                ch.push(("sval-ref", sval_ref_text(&t)));
+                                let owned = t.to_owned();
+                                ch.push(("display", owned.to_string()));
+                                ch.push(("sval", sval_text(&owned)));
+                                ch.push(("sval-ref", sval_ref_text(&owned)));
+                                let backs = vec![
+                                    ("from_any", emit::Value::from_any(&t).cast::<Path>().as_ref() == Some(&t)),
+                                    ("owned", emit::Value::from_any(&t).to_owned().by_ref().cast::<Path>().as_ref() == Some(&t)),
+                                    ("serde", emit::Value::from_serde(&t).cast::<Path>().as_ref() == Some(&t)),
+                                    ("sval", emit::Value::from_sval(&t).cast::<Path>().as_ref() == Some(&t)),
+                                ];
+                                (ch, backs)
+                            }),
+                        });
+                        match got {
+                            Ok(None) => {} // already reported as rejects-wellformed
+                            Ok(Some(g)) => st.check_channels(p, &want, Ok(g), line),
+                            Err(e) => st.check_channels(p, &want, Err(e), line),
+                        }
+                    }
                 }
+            }
+            "FORMS" => {
+                let same = |v: &Value, known: &[&str]| {
+                    let a = v.as_array().unwrap_or_else(|| tool_error("FORMS: not an array"));
+                    a.len() == known.len() && known.iter().all(|k| a.iter().any(|x| x == k))
+                };
+                if !same(&c["casts"], &CAST_FORMS) || !same(&c["channels"], &VALUE_CHANNELS) || !same(&c["typed"], &TYPED_CAST_FORMS) {
+                    tool_error("the form / channel names of the specification and of the harness differ");
+                }
+                st.dontcare = c["dontcare"].as_array().unwrap().iter().map(|p| (p[0].as_str().unwrap().to_string(), p[1].as_str().unwrap().to_string())).collect();
             }
             "FMT" => {
                 let ts = ts_from(&c["v"]);
@@ -244,6 +479,16 @@ fn main() {
                 }
                 // the round trip: parsing the predicted text gives the (truncated) instant
                 st.check_text("ts", &want, "a", &c["back"], line);
+                if p == 9 {
+                    // the typed value, out through every channel and back; std interop
+                    let got = catch(|| (channels_full(&ts), {
+                        let mut b = typed_casts_full(&ts);
+                        b.push(("to_system_time", ts.to_system_time().duration_since(std::time::UNIX_EPOCH).ok() == Some(ts.to_unix())));
+                        b.push(("== by reference", ts == &ts && &ts == ts));
+                        b
+                    }));
+                    st.check_channels("ts", &want, got, line);
+                }
                 st.rep.checks += 1;
                 let dc = catch(|| emit::Value::from_any(&ts).cast::<Timestamp>() == Some(ts) && emit::Value::from_any(&ts).by_ref().cast::<Timestamp>() == Some(ts));
                 if dc != Ok(true) {
@@ -288,6 +533,8 @@ fn main() {
                     st.mm("level-value-roundtrip".into(), line, json!({}));
                 }
                 st.check_text("lvl", &want, "a", &c["val"], line);
+                let got = catch(|| (channels_plain(&l), typed_casts_plain(&l)));
+                st.check_channels("lvl", &want, got, line);
             }
             "KINDFMT" => {
                 let want = text_of(&c["text"]);
@@ -300,6 +547,8 @@ fn main() {
                     st.mm("kind-value-roundtrip".into(), line, json!({}));
                 }
                 st.check_text("kind", &want, "a", &c["val"], line);
+                let got = catch(|| (channels_plain(&k), typed_casts_plain(&k)));
+                st.check_channels("kind", &want, got, line);
             }
             _ => tool_error("unknown line kind"),
         }
@@ -456,7 +705,7 @@ fn main() {
                 for (how, o) in &outs {
                     if let Err(pn) = o {
                         st.mm(format!("{p}-panic"), &none, json!({"text": s, "entry": how, "panic": pn, "source": "random"}));
-                    } else if *o != first && !(p == "ts" && s.len() > 30) {
+                    } else if *o != first && !(p == "ts" && s.len() > 30) && !st.dontcare.iter().any(|(pp, f)| pp == p && f == how) {
                         st.mm(format!("{p}-entry-points-disagree"), &none, json!({"text": s, "entry": how, "first": format!("{first:?}"), "this": format!("{o:?}")}));
                     }
                 }
@@ -468,6 +717,7 @@ fn main() {
     st.rep.extra.insert("sweep_evaluations".into(), json!(evals));
     st.rep.extra.insert("distinct_accepted_values".into(), json!(distinct_accept.len()));
     st.rep.extra.insert("decided".into(), json!(st.decided));
+    st.rep.extra.insert("findings_observed".into(), json!({"counts": st.finding_obs, "examples": st.finding_examples}));
     st.rep.extra.insert("mismatch_kinds".into(), json!(st.per_kind));
     st.rep.write(out);
 }
